@@ -118,7 +118,13 @@ def read(fmt: str, data: bytes, reader_cfg=None):
   import xml.etree.ElementTree as et
   if fmt == "ttml":
     import ttconv.imsc.reader as r
-    return r.to_model(et.parse(io.BytesIO(data)))
+    try:
+      tree = et.parse(io.BytesIO(data))
+    except Exception as ex:  # pylint: disable=broad-except
+      # the XML layer (python's ElementTree, called by tt.py before the reader) rejected the bytes: whatever it raises
+      # (ParseError, or LookupError for an unknown encoding name, ...) is an XML parse error, not a reader failure
+      raise et.ParseError("not well-formed XML: " + type(ex).__name__) from ex
+    return r.to_model(tree)
   if fmt == "scc":
     import ttconv.scc.reader as r
     from ttconv.scc.config import SccReaderConfiguration
